@@ -364,8 +364,10 @@ def replay_part(ctx, rng, focus):
         nsub = ctx.pick(min(4, len(hists)), 64)
         sub, sub16 = hists[:nsub], hists[::-1][:nsub]
     else:
-        th = simulate(tal, 4, 7, "thread_histories")
-        sub, sub16 = th[:2], th[2:4]
+        th = simulate(tal, 24, 7, "thread_histories")
+        # keep the four with the most calls on 40x48 NumPy rasters (where Numba threads, if any kernel used them, interleave)
+        th = sorted(th, key=lambda h: -len({x for x in h if x[2] == F4B}) * 10 - sum(1 for x in h if x[2] == F4B))[:4]
+        sub, sub16 = th[0::2], th[1::2]
     # exhaustive ordered pairs over a small cheap alphabet, enumerated by TLC (thorough)
     pair_hists = []
     if ctx.tier == "thorough":
